@@ -34,15 +34,32 @@ def split_traces(rep, tier, seed):
         den = rng.choice([1, 2, 4, 8, 16])
         num = (0, den)[i % 2] if i % 6 == 0 else rng.randrange(0, den + 1)              # percentage 0 and 1 are endpoints
         seedv = 0 if i % 7 == 0 else (1 if i % 7 == 1 else rng.randrange(0, 1000))     # seed 0 is an endpoint (falsy)
+        pct = num / den
+        if i % 4 == 3:
+            # percentages that are not dyadic (k/100, k/n, thirds): n * percentage computed in floating point can fall just below an
+            # integer the decimal reading suggests (100 * 0.29 = 28.999999999999996).  "floor(n * percentage)" is about the float the
+            # caller passed: its exact floor is computed with rational arithmetic here (TLC's integers are 32-bit) and handed to the
+            # trace as the equivalent fraction floor / n
+            from fractions import Fraction
+            n = rng.choice([22, 49, 50, 90, 100, 100, 180, rng.randrange(3, 60)])
+            X = r.normal(size=(n, d))
+            Y = r.integers(0, 3, size=n)
+            pct = rng.choice([0.29, 0.57, 0.58, 0.7, 0.35, 15 / 22, 1 / 49, 1 / 3, 2 / 3, 0.07, 0.14, 0.28, 0.55, rng.randrange(1, 100) / 100.0, rng.randrange(1, n + 1) / n])
+            num, den = int(Fraction(pct) * n // 1), n
+            if num != int(n * pct):
+                # the two readings of "n * percentage" part ways (50 * 0.7 is 35.0 in floating point, 34.99999999999999778 exactly):
+                # the statement does not say which one is meant - not judged
+                rep.skip("floor_of_float_product_and_exact_floor_differ")
+                continue
         I = H.Interner()
         rows = lambda A: [I("r", a) for a in A]
         pairs = lambda A, B: [I("p", a, int(b)) for a, b in zip(A, B)]
-        meta = {"n": n, "kind": kind, "num": num, "den": den, "seed": seedv, "X": X.tolist(), "Y": Y.tolist()}
+        meta = {"n": n, "kind": kind, "num": num, "den": den, "percentage": pct, "seed": seedv, "X": X.tolist(), "Y": Y.tolist()}
         try:
-            X1, X2, Y1, Y2, I1, I2 = sp.split_with_index(X.copy(), Y.copy(), num / den, seedv)
-            a1, a2, b1, b2 = sp.split(X.copy(), Y.copy(), num / den, seedv)
-            c1, c2, d1, d2, J1, J2 = sp.split_with_index(X.copy(), Y.copy(), num / den, seedv)
-            e1, e2, f1, f2 = sp.split(X.copy(), Y.copy(), num / den, seedv)
+            X1, X2, Y1, Y2, I1, I2 = sp.split_with_index(X.copy(), Y.copy(), pct, seedv)
+            a1, a2, b1, b2 = sp.split(X.copy(), Y.copy(), pct, seedv)
+            c1, c2, d1, d2, J1, J2 = sp.split_with_index(X.copy(), Y.copy(), pct, seedv)
+            e1, e2, f1, f2 = sp.split(X.copy(), Y.copy(), pct, seedv)
             Xm, Ym = sp.merge(a1, a2, b1, b2)
         except Exception as ex:
             rep.violation("splitter", "split_or_merge_raised", type(ex).__name__, dict(meta, exception=str(ex)[:200]))
